@@ -599,7 +599,7 @@ func r015(c *Ctx) {
 		for _, cs := range callsToName(fn, "net/http.NewRequestWithContext") {
 			if resultOf(wt, 0) != nil && cs.common().Args[0] == resultOf(wt, 0) {
 				// and this request is the one sent
-				if call, ok2 := cs.instr.(*ssa.Call); ok2 && do.Call.Args[1] == resultOf(call, 0) {
+				if call, ok2 := cs.instr.(*ssa.Call); ok2 && nonNilSource(do.Call.Args[1]) == resultOf(call, 0) {
 					ok = true
 				}
 			}
@@ -688,23 +688,10 @@ func r016n(c *Ctx, rule string) {
 			c.ob(rule, "write LoadBalancer.healthy in "+of, st.Pos(), false, false, "only updateHealthyTargets may fill the rotation")
 			continue
 		}
-		// append(lb.healthy, x): x must satisfy State()==healthy at this point
-		app, ok := st.Val.(*ssa.Call)
-		if b, isB := func() (*ssa.Builtin, bool) {
-			if !ok {
-				return nil, false
-			}
-			b, ok2 := app.Call.Value.(*ssa.Builtin)
-			return b, ok2
-		}(); !isB || b.Name() != "append" || !isLoadOfField(app.Call.Args[0], healthyF) {
-			c.undecided(rule, "updateHealthyTargets/fill", st.Pos(), "rotation filled by something other than append(lb.healthy, target) (unrecognised form)")
-			continue
-		}
-		elems := appendedElems(app)
-		okAll := len(elems) > 0
-		for _, e := range elems {
-			guarded := false
-			for _, f := range dominatingConds(st.Block()) {
+		// the list stored is built only from the empty list by appending targets tested State()==healthy at that point
+		// (directly into lb.healthy, or into a local list that is stored afterwards)
+		elemGuarded := func(e ssa.Value, at *ssa.BasicBlock) bool {
+			for _, f := range dominatingConds(at) {
 				cm, ok := asCmp(f.cond, f.taken)
 				if !ok || cm.op != token.EQL {
 					continue
@@ -713,14 +700,58 @@ func r016n(c *Ctx, rule string) {
 					call, ok := pair[0].(*ssa.Call)
 					if ok && isCallTo(call.Common(), stateFn) && call.Call.Args[0] == e {
 						if k, ok := constInt(pair[1]); ok && k == healthy {
-							guarded = true
+							return true
 						}
 					}
 				}
 			}
-			if !guarded {
-				okAll = false
+			return false
+		}
+		seen := map[ssa.Value]bool{}
+		unknown := false
+		var healthyOnly func(v ssa.Value) bool
+		healthyOnly = func(v ssa.Value) bool {
+			if seen[v] {
+				return true
 			}
+			seen[v] = true
+			if isEmptySliceLit(v) || isNilConst(v) || isLoadOfField(v, healthyF) {
+				return true
+			}
+			switch x := v.(type) {
+			case *ssa.Phi:
+				for _, e := range x.Edges {
+					if !healthyOnly(e) {
+						return false
+					}
+				}
+				return true
+			case *ssa.ChangeType:
+				return healthyOnly(x.X)
+			case *ssa.Call:
+				if b, isB := x.Call.Value.(*ssa.Builtin); isB && b.Name() == "append" {
+					if !healthyOnly(x.Call.Args[0]) {
+						return false
+					}
+					elems := appendedElems(x)
+					if len(elems) == 0 {
+						return false
+					}
+					for _, e := range elems {
+						if !elemGuarded(e, x.Block()) {
+							return false
+						}
+					}
+					return true
+				}
+			}
+			unknown = true
+			return false
+		}
+		okAll := healthyOnly(st.Val)
+		if !okAll && unknown {
+			c.undecided(rule, "updateHealthyTargets/fill", st.Pos(), "rotation filled by something other than the empty list / append(list, target) (unrecognised form)")
+			continue
 		}
 		c.ob(rule, "updateHealthyTargets/append-guarded-by-State()==healthy", st.Pos(), okAll, true, "each appended target must be tested State()==TargetStateHealthy on the dominating branch")
 	}
